@@ -92,3 +92,9 @@ package auth
 //@   ensures [C19] revoke_failure_keeps_cookie: called(@Revoke#1) && @Revoke#1 != nil ==> rw.$sessionCookie == 0
 //@   ensures [C19] success_clears_and_returns: called(@Revoke#1) && @Revoke#1 == nil ==> rw.$sessionCookie == 2 && rw.$status == 302 && rw.$location == old(formGet(req.Form, "redirect_uri"))
 //@   ensures [C19] get_never_signs_out: old(req.Method) == "GET" ==> !called(@Revoke#1) && rw.$sessionCookie == 0
+
+// ---- C18: every response of the service mux carries the authenticator's security header set ---------------
+//@ func setHeaders$1(rw http.ResponseWriter, req *http.Request)
+//@   sink [C18] security_headers_before_inner_handler: ServeHTTP requires $arg0 == rw && $arg1 == req && hdrIs(rw.$hdr, "Strict-Transport-Security", "max-age=31536000") && hdrIs(rw.$hdr, "X-Frame-Options", "DENY") && hdrIs(rw.$hdr, "X-Content-Type-Options", "nosniff") && hdrIs(rw.$hdr, "X-Xss-Protection", "1; mode=block") && hdrIs(rw.$hdr, "Content-Security-Policy", "default-src 'none'; style-src 'self'; img-src 'self';") && hdrIs(rw.$hdr, "Referrer-Policy", "Same-origin")
+//@   loop 1
+//@     invariant forall k string {canonhdr(k)} :: visited(k) ==> (k in securityHeaders) && hdrIs(rw.$hdr, canonhdr(k), securityHeaders[k])
